@@ -98,7 +98,8 @@ class World:
         for d in (self.blob_dir, self.remote_dir, self.src_dir):
             os.mkdir(d)
         self.db_path = os.path.join(tmp, "lbrynet.sqlite")
-        self.conf = types.SimpleNamespace(save_blobs=save_blobs, blob_lru_cache_size=0, track_bandwidth=False)
+        self.conf = types.SimpleNamespace(save_blobs=save_blobs, blob_lru_cache_size=0, track_bandwidth=False,
+                                          announce_head_and_sd_only=True, concurrent_blob_announcers=10)
         self.loop = _get_loop()
         self.storage = None
         self.bm = None
@@ -218,6 +219,7 @@ class World:
         out.label("restart:" + ("clean" if clean else "unclean"), "restart-after:" + why)
         await self.start()
         self.check_started(f_before, s_before, "restart")
+        await self.check_announced("restart")
         if again:
             out.label("restart:repeated")
             await self.shutdown(True)
@@ -225,6 +227,7 @@ class World:
             s2 = self.rows()
             await self.start()
             self.check_started(f2, s2, "second-restart")
+            await self.check_announced("second-restart")
             files = self.files()
             completed = self.reported()
             if completed != files:
@@ -232,6 +235,22 @@ class World:
                             "reported but no file: %s; file but not reported: %s" % (
                                 sorted(x[:8] for x in completed - files), sorted(x[:8] for x in files - completed)))
         self.changed_since_restart = False
+
+    async def check_announced(self, tagp):
+        """what the DHT announcer is handed after this start (head / sd blobs and blobs the user asked to announce): each must be
+        reported as completed, i.e. have its file"""
+        for flag in (True, False):
+            self.conf.announce_head_and_sd_only = flag
+            try:
+                hashes = await self.storage.get_blobs_to_announce()
+            finally:
+                self.conf.announce_head_and_sd_only = True
+            bad = [h for h in hashes if not self.has_file(h)]
+            if hashes:
+                self.out.label("announcer-has-work")
+            if bad:
+                self.out.violate(tagp + ":announces-blob-without-file" + ("" if flag else ":announce-everything"),
+                                 "handed to the announcer, no file: %s" % sorted(x[:8] for x in bad))
 
     def check_started(self, f_before, s_before, tagp):
         out = self.out
@@ -492,6 +511,13 @@ class World:
         self.changed_since_restart = True
         self.out.label("op:db_row_delete", "db_row_delete:" + ("file-stays" if self.has_file(h) else "no-file"))
 
+    async def op_announce(self, op):
+        """blob_announce: the user asks for a blob to be announced at once"""
+        h = self.select(op.get("mode", 3), op["i"])
+        await self.storage.should_single_announce_blobs([h], immediate=True)
+        await self.settle()
+        self.out.label("op:announce")
+
     async def op_touch(self, op):
         h = self.select(op.get("mode", 0), op["i"])
         self.bm.get_blob(h)
@@ -565,8 +591,9 @@ def op_strategy():
     db_row_delete = st.builds(lambda m, i: {"op": "db_row_delete", "mode": m, "i": i}, st.sampled_from([0, 1, 1, 2]), idx)
     touch = st.builds(lambda m, i: {"op": "touch", "mode": m, "i": i}, st.sampled_from([0, 1, 3]), idx)
     restart = st.builds(lambda c, a: {"op": "restart", "clean": c, "again": a}, st.sampled_from([True, True, False]), flag)
+    announce = st.builds(lambda m, i: {"op": "announce", "mode": m, "i": i}, st.sampled_from([3, 3, 1]), idx)
     return st.one_of(complete, complete, complete, publish, remote, delete, delete, rm_file, rm_file, drop_file,
-                     drop_file, drop_unknown, drop_invalid, db_row_delete, touch, restart, restart)
+                     drop_file, drop_unknown, drop_invalid, db_row_delete, touch, restart, restart, announce)
 
 
 def case_strategy(tier):
@@ -581,5 +608,5 @@ PARTS = [
     Part("history", case_strategy, run_case, 300, 4000, quick_shards=4, thorough_shards=16,
          essential=("window:file-without-row", "window:file-with-pending-row", "window:finished-row-without-file",
                     "crash:complete", "crash:publish", "crash:delete", "op:delete", "restart:repeated",
-                    "op:drop_invalid", "op:remote", "bulk:gt500", "data_store:kept-in-process", "data_store:new-process")),
+                    "op:drop_invalid", "op:remote", "bulk:gt500", "data_store:kept-in-process", "data_store:new-process", "op:announce", "announcer-has-work")),
 ]
